@@ -62,6 +62,12 @@ var lengthLike = map[string][]int{
 	"NUMBER_FORMAT": {1}, "ROUND": {1}, "ENOTATION": {1},
 }
 
+// lengths no machine can hold (2^53 characters and more): the result cannot exist, so csvq can only answer with an
+// error (or NULL); they are beyond the largest allocation the Go runtime accepts, so a csvq that tries anyway panics
+// at once instead of exhausting the memory of the test machine (lengths between 1e5 and 2^48 are not drawn).
+var lengthAbsurd = []bval{{"9007199254740992", "len_absurd"}, {"4611686018427387904", "len_absurd"}, {"9223372036854775807", "len_absurd"}, {"9223372036854775806", "len_absurd"},
+	{"'9223372036854775807'", "len_absurd"}}
+
 var lengthSafe = []bval{{"0", "zero"}, {"-1", "neg"}, {"1", "one"}, {"100000", "len_cap"}, {"99999", "len_cap"}, {"NULL", "null"}, {"'abc'", "text"}, {"0.5", "frac"}, {"''", "empty"}}
 
 var bigClasses = map[string]bool{"i64max": true, "i64min": true, "i64min1": true, "over_i64": true, "under_i64": true, "f_huge": true, "f_neghuge": true, "f_over_i64": true, "over_i32": true,
@@ -94,6 +100,9 @@ func drawArgs(t *rapid.T, name string, n int, withCols bool) ([]string, []string
 		for _, li := range lengthLike[name] {
 			if li == i && (bigClasses[b.class] || strings.HasPrefix(b.class, "col_")) {
 				b = fw.PickU(t, "lensafe", lengthSafe)
+				if (name == "LPAD" || name == "RPAD") && fw.Pct(t, "lenAbsurd", 35) {
+					b = fw.PickU(t, "lenabsurd", lengthAbsurd)
+				}
 			}
 		}
 		// a 100 000-character pattern against a 100 000-character subject is 1e10
@@ -300,6 +309,10 @@ var knownShapes = []knownShape{
 			return c.Kind == "clause" && c.Name == "SUBSTRING FROM FOR" && len(c.Args) >= 2 && bigClasses[c.Args[1]]
 		}, false},
 	{"zero_column_table_aggregate_fatal", "an aggregate over a table without columns (see avoidKnownZeroColumnAggregate)", zeroColumnAggregate, avoidKnownZeroColumnAggregate},
+	{"pad_length_absurd_fatal", "LPAD/RPAD(str, len, pad) with len of 2^53 and more: the repeat count overflows or the allocation is refused and the panic is reported as Fatal Error (lib/query/function.go execStringsPadding)",
+		func(c progCase) bool {
+			return c.Kind == "func" && (c.Name == "LPAD" || c.Name == "RPAD") && argIn(c, 1, "len_absurd")
+		}, false},
 	{"pad_empty_padstr_fatal", "LPAD/RPAD(str, len, ''): the pad string's length 0 divides the missing length, int(Ceil(+Inf)) is negative and strings.Repeat panics (lib/query/function.go execStringsPadding)",
 		func(c progCase) bool {
 			return c.Kind == "func" && (c.Name == "LPAD" || c.Name == "RPAD") && argIn(c, 2, "empty", "col_v", "col_s", "col_g")
@@ -757,7 +770,7 @@ func TestC19Programs(t *testing.T) {
 		Gen: genProg, Check: checkProg,
 		Rule: "syntactically valid programs: every name in query.Functions (+NOW, JSON_OBJECT; CALL excluded), query.AggregateFunctions (+LISTAGG, JSON_AGG) and query.AnalyticFunctions, enumerated at run time, called with 0-4 arguments drawn from ~55 boundary values (0, -1, int64 bounds, beyond int64, 1e308, denormal, NaN/Inf as floats and as text, NULL, '', wrong types, datetimes at year 0/10000, malformed JSON/regex/format strings, 100 000-character strings, column references) in plain / DISTINCT / GROUP BY / WITHIN GROUP / OVER (partition, order, ROWS frames) / IGNORE NULLS forms over a 0-8 row temporary table holding boundary cells; the same values in LIMIT, OFFSET, PERCENT, WITH TIES, FETCH, NTILE, NTH_VALUE, LAG/LEAD, frame offsets, cursor FETCH ABSOLUTE/RELATIVE, @@LIMIT_RECURSION with recursive CTEs, @@CPU, @@WAIT_TIMEOUT, REMOVE FROM @@DATETIME_FORMAT, ORDER/GROUP BY constants, JSON_ROW, JSON_TABLE, CASE, operators, PRINTF, TRIGGER ERROR, EXIT, control flow, user functions/aggregates, INSERT/UPDATE/DELETE/ALTER on the temporary table; and SET @@FORMAT to each of 12 output formats x 0-2 write settings (encodings, delimiters, delimiter positions, line breaks, JSON escapes, ...) x 16 column-name shapes (duplicates, periods, empty, control characters, ...) x boundary cells with the output captured; joins (prog3_test.go): two operands out of 22 (temporary views with NULL / duplicate / mixed-type keys, zero rows, zero columns, header only, files of four formats, grouped and duplicate-name subqueries, JSON_TABLE, table objects, STDIN, DUAL; aliases l/r, none, or twice the same) x 22 join forms (CROSS, comma, INNER, LEFT/RIGHT/FULL [OUTER], NATURAL x 4, each also with a LATERAL subquery that refers to the left operand) x ON (30 conditions incl. boundary values, subqueries, aggregates, analytic functions, unknown and ambiguous fields, row values) or USING (unknown, repeated, all columns) x 27 uses (SELECT forms, GROUP BY, DISTINCT, analytic functions, UPDATE/DELETE ... FROM of one or both operands, INSERT SELECT, cursor, scalar / IN subquery, FOR UPDATE, CREATE TABLE AS, set operation, join of joins, third table, CTE) with @@CPU 1 or 2..16; programs over the file tables big (330 rows, cells = boundary values) and mid (170 rows) with @@CPU 2..16 so that csvq divides records, groups, partitions and join rows between goroutines: every scalar built-in with column arguments in 24 positions (SELECT, WHERE, ORDER BY, GROUP BY, DISTINCT, DML, ALTER DEFAULT, subqueries, join condition, aggregate / analytic argument, set operations, output), a user-defined function that fails for exactly one record (first, last, at the 80-record boundaries) in 11 positions, and 29 plain shapes (sort + LIMIT/OFFSET boundary, set operations, 2..397 groups / partitions with frames, joins, subquery predicates, recursive CTEs, DML, ALTER, cursors, output formats, the table read as another format); user-defined functions and aggregates (prog4_test.go) whose bodies are programs (35 bodies: DML on views and files, SELECT INTO, cursors, nested / recursive calls, COMMIT / ROLLBACK, PREPARE, flags, TRIGGER ERROR, SOURCE, declarations) called from 28 sites (SELECT clauses, subqueries, cursors, control flow, several goroutines, and inside INSERT / UPDATE / DELETE / REPLACE / ALTER ... DEFAULT). Oracle: as load_data (no FatalError, no escaped panic, returns, documented code, memory stays bounded). non-trivial = a built-in reached with >=1 boundary argument (not 'function does not exist'); distinct by (function, argument classes, outcome) / (clause, classes, outcome) / (format, settings, name shape, outcome)",
 		Assumptions: []string{
-			"integer arguments that determine the size of the result (LPAD/RPAD length, NUMBER_FORMAT/ROUND/ENOTATION precision) are capped at 100 000",
+			"integer arguments that determine the size of the result (LPAD/RPAD length, NUMBER_FORMAT/ROUND/ENOTATION precision) are capped at 100 000; LPAD/RPAD lengths are also drawn from 2^53, 2^62, 2^63-2, 2^63-1: a result of that size cannot exist, an error or NULL is the only acceptable answer (lengths between, which a machine with enough memory could serve, are not drawn)",
 			"an endless recursive CTE is generated only under @@LIMIT_RECURSION in {0,1,2,1000}",
 			"TRIGGER ERROR / EXIT with a user-chosen code: any code the statement accepts is a documented outcome",
 			"a function body that takes the operation lock is paired only with call sites outside data-changing statements while the known finding dml_in_function_called_from_dml_deadlock is open (pairs left out: measured.excluded_known_dml_in_function_called_from_dml); the pinned case of that finding runs in the real binary with one 12 s limit",
